@@ -7,6 +7,8 @@ use stats_ci::mean::{Arithmetic, Geometric, Harmonic};
 use stats_ci::{proportion, Confidence, Interval};
 
 fn needs<T: Serialize + DeserializeOwned>() {}
+/// zero-copy deserialisation of a borrowing element type (`quantile::ci` on string data returns `Interval<&str>`)
+fn needs_borrowed<'de, T: Serialize + serde::Deserialize<'de>>() {}
 
 pub fn every_listed_type_is_serialisable() {
     needs::<Confidence>();
@@ -15,6 +17,7 @@ pub fn every_listed_type_is_serialisable() {
     needs::<Interval<i32>>();
     needs::<Interval<usize>>();
     needs::<Interval<String>>();
+    needs_borrowed::<Interval<&str>>();
     needs::<Arithmetic<f64>>();
     needs::<Arithmetic<f32>>();
     needs::<Geometric<f64>>();
